@@ -1,6 +1,9 @@
 """C14 — bit and integer utilities: case generators and configuration."""
 ID = "C14"
 LEVEL = "proof"
+# translator tie: coq/Gen/Gen_bits.v is regenerated from $VERIF_REPO on every run; coq/C14/GenEquiv.v re-proves
+# generated = model (Properties_gen.v)
+TRANSLATE = [("translate/kernels_bits.json", "coq/Gen/Gen_bits.v")]
 HARNESSES = [
     {"name": "main", "src": "harness.cpp", "flags": ["-O1", "-DTETL_ENABLE_CONTRACT_CHECKS=1"]},
     # same cases under UBSan: undefined behaviour on an input of the documented domain aborts the
@@ -10,8 +13,9 @@ HARNESSES = [
 ]
 
 RULE = ("8-bit types: every value (unary) and every pair (binary; every word x every position 0..255 for the "
-        "single-bit functions; every value x every count in [-130,130] for rotl/rotr); 16-bit types: every value (unary), "
-        "every value x a boundary set (binary); 32/64-bit: every single bit, all-ones-below-bit, +-1 neighbours, type limits "
+        "single-bit functions; every value x every count in [-130,130] for rotl/rotr); 16-bit types: every value (unary); "
+        "binary: boundary values (2 per argument position in quick, ~25 in thorough) x a sample of the 256-value chunks of the other "
+        "argument (3 chunks at each end, 5 around zero/the middle, every 6th in between); 32/64-bit: every single bit, all-ones-below-bit, +-1 neighbours, type limits "
         "(and their cross product for binary functions) plus seeded random values/pairs; rotation counts [-130,130] and "
         "the int limits; all 64 (T,U) pairs of the eight fixed-width types for cmp_*/in_range/saturate_cast/gcd/lcm over the "
         "limits+-1 of every type; 'row' cases evaluate 256 (or 261) inputs per line; "
@@ -41,7 +45,11 @@ def clip(t, vals):
     return sorted({v for v in vals if lo <= v <= hi})
 
 
-def boundary(t):
+import functools
+
+
+@functools.lru_cache(maxsize=None)
+def _boundary(t):
     """every single bit, all-ones-below-bit, +-1 neighbours, limits (and negatives for signed types)"""
     w, s = TYPES[ALIAS.get(t, t)]
     v = {0, 1, 2, 3}
@@ -55,7 +63,11 @@ def boundary(t):
         v |= {hi ^ (1 << k) for k in range(w)}           # all ones except one bit
         v |= {(hi >> k) << k for k in range(w)}          # ones above bit k
         v |= {0x5555555555555555 & hi, 0xAAAAAAAAAAAAAAAA & hi, 0x0123456789ABCDEF & hi, 0xFF00FF00FF00FF00 & hi}
-    return clip(t, v)
+    return tuple(clip(t, v))
+
+
+def boundary(t):
+    return list(_boundary(t))
 
 
 def small_boundary(t):
@@ -88,7 +100,7 @@ def rnd(rng, t):
 
 def rows(out, lo, hi, tail, chunk=256, head="row", sample=False):
     """row cases covering [lo, hi] in chunks; sample=True keeps the chunks at both ends, around zero / the middle
-    and every 4th chunk in between (quick tier of the 16-bit binary grid)"""
+    and every 6th chunk in between (quick tier of the 16-bit binary grid)"""
     chunks = []
     a = lo
     while a <= hi:
@@ -97,7 +109,7 @@ def rows(out, lo, hi, tail, chunk=256, head="row", sample=False):
         a = b + 1
     n = len(chunks)
     for i, (a, b) in enumerate(chunks):
-        if sample and not (i < 3 or i >= n - 3 or abs(i - n // 2) <= 2 or i % 4 == 1):
+        if sample and not (i < 3 or i >= n - 3 or abs(i - n // 2) <= 2 or i % 6 == 1):
             continue
         out.append(f"{head} {a} {b} {tail}")
 
@@ -128,7 +140,7 @@ def ipow_no_ub(t, b, e):
 def gen(tier, rng):
     out = []
     quick = tier == "quick"
-    nrand = 800 if quick else 60000
+    nrand = 800 if quick else 20000
 
     # ------------------------------------------------------------------ 8-bit: exhaustive
     rows(out, 0, 255, "bits u8")
@@ -181,26 +193,29 @@ def gen(tier, rng):
         # binary: every value x boundary set, both argument orders (quick: two boundary values per order and a
         # sample of the chunks, see rows())
         one = -1 if lo < 0 else 1
+        # thorough: every other value of the boundary set (both ends kept) x the same chunk sample; the full
+        # 2^16 x boundary grid would be ~60 M evaluations / 1.5 GB of text per leg, more than the engine can hold
         full = small_boundary(t)
+        full = sorted(set(full[::2] + [full[0], full[-1]]))
         for bv in (full if not quick else [lo, hi]):
             for op in ("add_sat", "div_sat", "midpoint"):
-                rows(out, lo, hi, f"{op} {t} {bv}", sample=quick)
+                rows(out, lo, hi, f"{op} {t} {bv}", sample=True)
             if lo < 0:
-                rows(out, lo, -1, f"idiv {t} {bv}", sample=quick)
-            rows(out, 1, hi, f"idiv {t} {bv}", sample=quick)
+                rows(out, lo, -1, f"idiv {t} {bv}", sample=True)
+            rows(out, 1, hi, f"idiv {t} {bv}", sample=True)
             for t2 in ("i16", "u16"):
                 l2, h2 = lim(t2)
-                rows(out, l2, h2, f"cmp {t} {t2} {bv}", sample=quick)
+                rows(out, l2, h2, f"cmp {t} {t2} {bv}", sample=True)
         for bv in (full if not quick else [hi, one]):
             for op in ("add_sat", "div_sat", "midpoint"):
-                rows(out, lo, hi, f"{op} {t} {bv}", head="rox", sample=quick)
+                rows(out, lo, hi, f"{op} {t} {bv}", head="rox", sample=True)
             if bv != 0:
-                rows(out, lo, hi, f"idiv {t} {bv}", head="rox", sample=quick)
+                rows(out, lo, hi, f"idiv {t} {bv}", head="rox", sample=True)
         for bv in (full if not quick else [hi, 27720 if lo < 0 else 30030]):
             for op in ("gcd", "lcm"):
-                rows(out, lo, hi, f"{op} {t} {t} {bv}", sample=quick)
+                rows(out, lo, hi, f"{op} {t} {t} {bv}", sample=True)
     if not quick:
-        for x in range(0, 65536, 7):
+        for x in range(0, 65536, 37):
             out.append(f"row -130 130 rot u16 {x}")
     for i, x in enumerate(boundary("u16")):
         if i % 3 == 0 or not quick:
